@@ -221,7 +221,7 @@ if k == 2:
 
 def harnesses(tier):
     out = []
-    chunk = 6 if tier == "quick" else 3
+    chunk = 3 if tier == "quick" else 2
     for t in cat.unit():
         expr = named_expr(t)
         doc, paths, dicts = doc_paths(expr)
